@@ -504,6 +504,21 @@ func runC01() {
 			sweeps++
 		}
 	}
+	// sweep 3: an empty array for every list property (kept as given), at the top and inside an embedded value
+	for pi := range t.Props {
+		p := &t.Props[pi]
+		ty := holder(p.Name)
+		if p.Functional || ty == nil || p.Name == "type" || p.Name == "id" {
+			continue
+		}
+		process(ty.Name, true, map[string]interface{}{"@context": allContexts, "type": ty.Name, "id": "https://example.com/sweep/e" + fmt.Sprint(sweeps), p.Name: []interface{}{}})
+		sweeps++
+		if pi%4 == 0 {
+			process("Create", true, map[string]interface{}{"@context": allContexts, "type": "Create", "id": "https://example.com/sweep/ec" + fmt.Sprint(sweeps),
+				"object": map[string]interface{}{"type": ty.Name, "id": "https://example.com/sweep/e" + fmt.Sprint(sweeps), p.Name: []interface{}{}}, "ext:null": nil, "x-list": []interface{}{}})
+			sweeps++
+		}
+	}
 	s.Dist["sweep_documents"] = sweeps
 	for k := 0; k < K; k++ {
 		var sb strings.Builder
